@@ -312,6 +312,7 @@ def project_srvops(di, d, eff, obs, sec_rounds):
                     anomalies.append((rid, "server-panic", _find(full, "server_panic")[0].get("detail")))
                 if not inv:
                     anomalies.append((rid, "route-not-served:%s/%s" % (_status(full), _errname(full)), None))
+                    op["statuses"] = []
                     ops.append(op)
                     continue
                 payload = inv[0].get("payload") or {}
